@@ -63,6 +63,32 @@ impl ErrTag for (usize,) {
         if self.0 >= 100 { format!("b{}", self.0 - 100) } else { "d".into() }
     }
 }
+/// an error type with an inherent `default()` next to its `Default` impl (such a function is kept for const tables):
+/// the lexer's default error is the value of the trait
+#[derive(Debug, Clone, PartialEq)]
+pub enum ZErr2 {
+    Unrecognised,
+    Placeholder,
+}
+impl Default for ZErr2 {
+    fn default() -> Self {
+        ZErr2::Unrecognised
+    }
+}
+impl ZErr2 {
+    #[allow(clippy::should_implement_trait)]
+    pub const fn default() -> Self {
+        ZErr2::Placeholder
+    }
+}
+impl ErrTag for ZErr2 {
+    fn tag(&self) -> String {
+        match self {
+            ZErr2::Unrecognised => "d".into(),
+            ZErr2::Placeholder => "X".into(),
+        }
+    }
+}
 impl ErrTag for ZErr {
     fn tag(&self) -> String {
         match self {
